@@ -4,7 +4,8 @@
 // functions (positional / keyword / scalar-default arguments, recursion, calls as statements), comprehensions with and
 // without filter over lists and range(), for over range() and with several loop names, the builtins len str bool any all
 // reversed sorted min max enumerate zip, dict literals (keys in ascending order, sometimes not), indexing, `in` on lists and
-// dicts, get / keys / values / items, join / split / startswith / endswith / upper / lower.
+// dicts, get / keys / values / items, join / split / startswith / endswith / upper / lower; and (third deepening) % formatting on
+// scalars, slices of lists and strings, unpacking assignment, dict |, sorted(reverse=) by keyword.
 package main
 
 import (
@@ -22,6 +23,16 @@ var pure2Methods = map[string]bool{"join": true, "split": true, "startswith": tr
 func positionalArgs(as []aspgen.Arg) bool {
 	for _, a := range as {
 		if a.Name != "" {
+			return false
+		}
+	}
+	return true
+}
+
+// qkwok: the keyword arguments of a builtin that CPython knows under the same name
+func kwArgsOK(name string, as []aspgen.Arg) bool {
+	for _, a := range as {
+		if a.Name != "" && !(name == "sorted" && a.Name == "reverse") {
 			return false
 		}
 	}
@@ -53,7 +64,7 @@ func pure2Expr(n int, e *aspgen.Expr) bool {
 			return false
 		}
 		switch o.Op {
-		case "is", "is not", "|", "/":
+		case "is", "is not", "/":
 			return false
 		}
 	}
@@ -91,6 +102,8 @@ type vlayer struct {
 	name string
 	args []aspgen.Arg
 	idx  *aspgen.Expr
+	lo   *aspgen.Expr
+	hi   *aspgen.Expr
 }
 
 func layersOf(v *aspgen.Val) []vlayer {
@@ -100,7 +113,7 @@ func layersOf(v *aspgen.Val) []vlayer {
 	}
 	for i := len(v.Slices) - 1; i >= 0; i-- {
 		if v.Slices[i].Colon {
-			ls = append(ls, vlayer{kind: "slice"})
+			ls = append(ls, vlayer{kind: "slice", lo: v.Slices[i].Lo, hi: v.Slices[i].Hi})
 		} else {
 			ls = append(ls, vlayer{kind: "index", idx: v.Slices[i].Lo})
 		}
@@ -132,6 +145,8 @@ func pure2Layers(n int, v *aspgen.Val, ls []vlayer) bool {
 		return pure2Layers(k, v, ls[1:]) && pure2Methods[l.name] && positionalArgs(l.args) && pure2Args(k, l.args)
 	case "index":
 		return pure2Layers(k, v, ls[1:]) && pure2Expr(k, l.idx)
+	case "slice":
+		return pure2Layers(k, v, ls[1:]) && (l.lo == nil || pure2Expr(k, l.lo)) && (l.hi == nil || pure2Expr(k, l.hi))
 	}
 	return false
 }
@@ -154,7 +169,7 @@ func pure2Base(n int, v *aspgen.Val) bool {
 		if plainName(v.Name) {
 			return true
 		}
-		return pure2Builtins[v.Name] && positionalArgs(v.Args)
+		return pure2Builtins[v.Name] && kwArgsOK(v.Name, v.Args)
 	case "paren":
 		return pure2Expr(k, v.Items[0])
 	case "list":
@@ -229,6 +244,13 @@ func pure2Stmt(n int, inloop, infn bool, s *aspgen.Stmt) bool {
 		return plainName(s.Name) && pure2Expr(k, s.E)
 	case "assert":
 		return pure2Expr(k, s.E)
+	case "unpack":
+		for _, nm := range s.Names {
+			if !plainName(nm) {
+				return false
+			}
+		}
+		return len(s.Names) >= 2 && pure2Expr(k, s.E)
 	case "return":
 		return infn && (s.E == nil || pure2Expr(k, s.E))
 	case "if":
@@ -273,6 +295,7 @@ func inPure2Subset(p aspgen.Prog) bool { return pure2Block(pureDepth, false, fal
 
 type pure2Gen struct {
 	*pureGen
+	ascii []string // string variables known to hold ASCII only (join / format / slice results of ASCII material)
 	dicts []string
 	funcs []pure2Fn
 	used  map[string]int
@@ -290,7 +313,7 @@ func (g *pure2Gen) note(k string) { g.used[k]++ }
 func call(name string, args ...aspgen.Arg) *aspgen.Val {
 	return &aspgen.Val{K: "ident", Name: name, Call: true, Args: args}
 }
-func pos(e *aspgen.Expr) aspgen.Arg         { return aspgen.Arg{E: e} }
+func pos(e *aspgen.Expr) aspgen.Arg          { return aspgen.Arg{E: e} }
 func kw(n string, e *aspgen.Expr) aspgen.Arg { return aspgen.Arg{Name: n, E: e} }
 
 func (g *pure2Gen) smallInt() *aspgen.Expr { return aspgen.IntE(g.r.Range(0, 9)) }
@@ -411,7 +434,7 @@ func (g *pure2Gen) dictLit() *aspgen.Val {
 func (g *pure2Gen) stmt2() []*aspgen.Stmt {
 	r := g.r
 	one := func(s *aspgen.Stmt) []*aspgen.Stmt { return []*aspgen.Stmt{s} }
-	switch r.Intn(16) {
+	switch r.Intn(24) {
 	case 0, 1:
 		e := g.comp()
 		return one(aspgen.Assign(g.fresh("l"), e))
@@ -436,7 +459,9 @@ func (g *pure2Gen) stmt2() []*aspgen.Stmt {
 	case 3:
 		g.note("join")
 		e := aspgen.E(aspgen.Method(aspgen.Str(lib.Pick(r, []string{"-", ", ", ""})), "join", g.strListExpr()))
-		return one(aspgen.Assign(g.fresh("s"), e))
+		name := g.fresh("s")
+		g.ascii = append(g.ascii, name)
+		return one(aspgen.Assign(name, e))
 	case 4:
 		m := lib.Pick(r, []string{"startswith", "endswith", "upper", "lower"})
 		g.note(m)
@@ -455,31 +480,44 @@ func (g *pure2Gen) stmt2() []*aspgen.Stmt {
 		d := g.fresh("d")
 		g.dicts = append(g.dicts, d)
 		return one(aspgen.Assign(d, aspgen.E(g.dictLit())))
-	case 6:
-		if len(g.dicts) > 0 {
+	case 6, 22, 23:
+		{
+			var pre []*aspgen.Stmt
+			if len(g.dicts) == 0 {
+				d0 := g.fresh("d")
+				g.dicts = append(g.dicts, d0)
+				pre = one(aspgen.Assign(d0, aspgen.E(g.dictLit())))
+			}
 			d := lib.Pick(r, g.dicts)
 			k := lib.Pick(r, []string{"a", "b", "c", "zz"})
 			switch r.Intn(5) {
 			case 0:
 				g.note("dict-index")
-				return one(aspgen.Assign(g.fresh("v"), aspgen.E(aspgen.Index(aspgen.Ident(d), aspgen.StrE(k)))))
+				return append(pre, aspgen.Assign(g.fresh("v"), aspgen.E(aspgen.Index(aspgen.Ident(d), aspgen.StrE(k)))))
 			case 1:
 				g.note("get")
 				args := []*aspgen.Expr{aspgen.StrE(k)}
 				if r.Bool() {
 					args = append(args, g.smallInt())
 				}
-				return one(aspgen.Assign(g.fresh("v"), aspgen.E(aspgen.Method(aspgen.Ident(d), "get", args...))))
+				return append(pre, aspgen.Assign(g.fresh("v"), aspgen.E(aspgen.Method(aspgen.Ident(d), "get", args...))))
 			case 2:
-				m := lib.Pick(r, []string{"keys", "values", "items"})
+				m := lib.Pick(r, []string{"keys", "values", "items", "items"})
 				g.note(m)
-				return one(aspgen.Assign(g.fresh("v"), aspgen.E(aspgen.Method(aspgen.Ident(d), m))))
+				if m == "items" && r.Bool() {
+					// for k, v in d.items(): two loop names over the freshly allocated pairs
+					acc := g.fresh("s")
+					g.ascii = append(g.ascii, acc)
+					return append(pre, aspgen.Assign(acc, aspgen.StrE("")),
+						aspgen.For([]string{"p", "q"}, aspgen.E(aspgen.Method(aspgen.Ident(d), m)), aspgen.Aug(acc, aspgen.E(aspgen.Ident("p"), aspgen.Bin("+", call("str", pos(aspgen.IdE("q"))))))))
+				}
+				return append(pre, aspgen.Assign(g.fresh("v"), aspgen.E(aspgen.Method(aspgen.Ident(d), m))))
 			case 3:
 				g.note("dict-in")
-				return one(aspgen.Assign(g.fresh("b"), aspgen.E(aspgen.Str(k), aspgen.Bin(lib.Pick(r, []string{"in", "not in"}), aspgen.Ident(d)))))
+				return append(pre, aspgen.Assign(g.fresh("b"), aspgen.E(aspgen.Str(k), aspgen.Bin(lib.Pick(r, []string{"in", "not in"}), aspgen.Ident(d)))))
 			}
 			g.note("len")
-			return one(aspgen.Assign(g.fresh("i"), aspgen.E(call("len", pos(aspgen.IdE(d))))))
+			return append(pre, aspgen.Assign(g.fresh("i"), aspgen.E(call("len", pos(aspgen.IdE(d))))))
 		}
 	case 7:
 		{
@@ -520,8 +558,12 @@ func (g *pure2Gen) stmt2() []*aspgen.Stmt {
 			}
 			it = aspgen.E(call("zip", pos(mk()), pos(mk())))
 		}
-		if r.Bool() {
+		switch r.Intn(3) {
+		case 0:
 			return one(aspgen.Assign(g.fresh("l"), aspgen.E(aspgen.Comp(aspgen.E(aspgen.Ident("p"), aspgen.Bin("+", aspgen.Ident("q"))), []string{"p", "q"}, it, nil))))
+		case 1:
+			// the list of pairs itself
+			return one(aspgen.Assign(g.fresh("v"), it))
 		}
 		acc := g.fresh("i")
 		return []*aspgen.Stmt{aspgen.Assign(acc, aspgen.IntE(0)),
@@ -530,6 +572,167 @@ func (g *pure2Gen) stmt2() []*aspgen.Stmt {
 		if len(g.funcs) > 0 {
 			return g.callFn()
 		}
+	case 16:
+		// "fmt" % scalar: %s / %d / %% with one value; one time in six a verb too many / too few, %d on a string, a bool or None
+		// on the right (the reference run refuses; asp raises or is a known finding)
+		g.note("percent-format")
+		intArg := func() *aspgen.Val {
+			if len(g.ints) > 0 && r.Bool() {
+				return aspgen.Ident(lib.Pick(r, g.ints))
+			}
+			return aspgen.Int(r.Range(-3, 40))
+		}
+		strArg := func() *aspgen.Val {
+			if len(g.ascii) > 0 && r.Bool() {
+				return aspgen.Ident(lib.Pick(r, g.ascii))
+			}
+			return aspgen.Str(lib.Pick(r, []string{"lib", "", "a b", "50%"}))
+		}
+		var f string
+		var arg *aspgen.Val
+		switch r.Intn(6) {
+		case 0, 1:
+			f, arg = lib.Pick(r, []string{"%d items", "100%% of %d", "%d%%", "%d", "n=%d."}), intArg()
+		case 2:
+			f, arg = lib.Pick(r, []string{"v=%s", "<%s>", "%s", "%s%%"}), intArg()
+		case 3, 4:
+			f, arg = lib.Pick(r, []string{"v=%s", "<%s>", "%s", "//%s:all"}), strArg()
+		default:
+			g.note("percent-format-mismatch")
+			f = lib.Pick(r, []string{"%s and %s", "no verb", "%d", "%s"})
+			arg = lib.Pick(r, []*aspgen.Val{aspgen.True(), aspgen.None(), aspgen.Str("x"), aspgen.Int(3)})
+			if f == "%d" && arg.K == "true" {
+				arg = aspgen.None() // ("%d" % True is "1" in CPython; the CPython dialect of the shared evaluator does not model it)
+			}
+		}
+		name := g.fresh("s")
+		g.ascii = append(g.ascii, name)
+		return one(aspgen.Assign(name, aspgen.E(aspgen.Str(f), aspgen.Bin("%", arg))))
+	case 17, 18:
+		// slices of lists and of ASCII strings: open bounds, negative bounds, bounds beyond the end; one time in eight lo > hi
+		// (asp raises, CPython clamps: the reference run refuses)
+		g.note("slice")
+		bounds := func(n int) (lo, hi *aspgen.Expr) {
+			// n: the length when it is known, else -1
+			if r.Chance(1, 8) {
+				g.note("slice-lo-above-hi")
+				return aspgen.IntE(r.Range(2, 3)), aspgen.IntE(r.Range(0, 1))
+			}
+			a, b := r.Range(0, 2), r.Range(2, 6)
+			switch r.Intn(4) {
+			case 0:
+				lo = nil
+			case 1:
+				if n >= 0 && a > 0 && a < n {
+					lo = aspgen.IntE(a - n) // the same position counted from the end
+				} else {
+					lo = aspgen.IntE(a)
+				}
+			default:
+				lo = aspgen.IntE(a)
+			}
+			switch r.Intn(4) {
+			case 0:
+				hi = nil
+			case 1:
+				if n >= b+1 {
+					hi = aspgen.IntE(b - n) // negative
+				} else {
+					hi = aspgen.IntE(b)
+				}
+			default:
+				hi = aspgen.IntE(b)
+			}
+			return
+		}
+		if r.Bool() {
+			var recv *aspgen.Val
+			n := -1
+			if len(g.lists) > 0 && r.Bool() {
+				recv = aspgen.Ident(lib.Pick(r, g.lists))
+			} else {
+				n = r.Range(2, 7)
+				es := []*aspgen.Expr{}
+				for k := 0; k < n; k++ {
+					es = append(es, g.smallInt())
+				}
+				recv = aspgen.List(es...)
+			}
+			lo, hi := bounds(n)
+			sl := aspgen.SliceOf(recv, lo, hi)
+			if r.Chance(1, 3) {
+				// the slice shares the array in asp: + must still build a new list
+				return one(aspgen.Assign(g.fresh("l"), aspgen.E(sl, aspgen.Bin("+", aspgen.List(g.smallInt())))))
+			}
+			return one(aspgen.Assign(g.fresh("l"), aspgen.E(sl)))
+		}
+		var recv *aspgen.Val
+		n := -1
+		if len(g.ascii) > 0 && r.Bool() {
+			recv = aspgen.Ident(lib.Pick(r, g.ascii))
+		} else {
+			w := lib.Pick(r, []string{"lib/core", "Abc", "x.go", "go_test.go", "//pkg:target"})
+			recv, n = aspgen.Str(w), len(w)
+		}
+		lo, hi := bounds(n)
+		name := g.fresh("s")
+		g.ascii = append(g.ascii, name)
+		return one(aspgen.Assign(name, aspgen.E(aspgen.SliceOf(recv, lo, hi))))
+	case 19:
+		// unpacking assignment from a literal (sometimes of the wrong length), from an element of enumerate, from sorted
+		g.note("unpack")
+		n := r.Range(2, 3)
+		mk := func(m int) []*aspgen.Expr {
+			es := []*aspgen.Expr{}
+			for k := 0; k < m; k++ {
+				es = append(es, g.smallInt())
+			}
+			return es
+		}
+		var e *aspgen.Expr
+		switch r.Intn(3) {
+		case 0:
+			m := n
+			if r.Chance(1, 8) {
+				m = n + 1
+			}
+			e = aspgen.E(aspgen.List(mk(m)...))
+		case 1:
+			n = 2
+			e = aspgen.E(aspgen.Index(call("enumerate", pos(aspgen.E(aspgen.List(mk(2)...)))), aspgen.IntE(r.Range(0, 1))))
+		default:
+			e = aspgen.E(call("sorted", pos(aspgen.E(aspgen.List(mk(n)...)))))
+		}
+		names := []string{}
+		for k := 0; k < n; k++ {
+			names = append(names, g.fresh("u")) // not registered as ints: the statement may raise
+		}
+		return one(&aspgen.Stmt{K: "unpack", Names: names, E: e})
+	case 20:
+		// dict | dict: ascending merged keys (in the fragment) or not
+		g.note("dict-union")
+		var left *aspgen.Val
+		if len(g.dicts) > 0 && r.Bool() {
+			left = aspgen.Ident(lib.Pick(r, g.dicts))
+		} else {
+			left = g.dictLit()
+		}
+		var right *aspgen.Val
+		switch r.Intn(3) {
+		case 0:
+			right = aspgen.Dict([]string{"k", "z"}, []*aspgen.Expr{g.smallInt(), g.smallInt()})
+		case 1:
+			right = aspgen.Dict([]string{"a"}, []*aspgen.Expr{g.smallInt()})
+		default:
+			right = g.dictLit()
+		}
+		d := g.fresh("d")
+		g.dicts = append(g.dicts, d)
+		return one(aspgen.Assign(d, aspgen.E(left, aspgen.Bin("|", right))))
+	case 21:
+		// a keyword argument of a builtin: sorted(l, reverse=...)
+		g.note("sorted-reverse-kw")
+		return one(aspgen.Assign(g.fresh("l"), aspgen.E(call("sorted", pos(g.intListExpr()), kw("reverse", aspgen.E(lib.Pick(r, []*aspgen.Val{aspgen.True(), aspgen.False()})))))))
 	case 13:
 		g.note("in-list")
 		return one(aspgen.Assign(g.fresh("b"), aspgen.E(aspgen.Int(r.Range(0, 5)), aspgen.Bin(lib.Pick(r, []string{"in", "not in"}), g.intListExpr().Val))))
@@ -643,9 +846,18 @@ func (g *pure2Gen) callFn() []*aspgen.Stmt {
 // Pure2Program generates one program aimed at the enlarged fragment; the second result lists the constructs it uses.
 func Pure2Program(r *lib.Rng) (aspgen.Prog, map[string]int) {
 	g := &pure2Gen{pureGen: &pureGen{r: r}, used: map[string]int{}}
-	e0 := g.intExpr(1)
+	// (three times in four the two leading assignments stay clear of the integer side conditions - % and // on negative
+	// operands, 64-bit overflow - so that the reference run gets as far as the constructs this stream is about)
+	e0, l0 := g.intExpr(1), aspgen.E(g.listLit())
+	if r.Chance(3, 4) {
+		e0 = aspgen.E(aspgen.Int(r.Range(0, 9)), aspgen.Bin(lib.Pick(r, []string{"+", "*"}), aspgen.Int(r.Range(1, 50))))
+		es := []*aspgen.Expr{}
+		for k := r.Range(0, 4); k > 0; k-- {
+			es = append(es, g.smallInt())
+		}
+		l0 = aspgen.E(aspgen.List(es...))
+	}
 	g.out = append(g.out, aspgen.Assign(g.fresh("i"), e0))
-	l0 := aspgen.E(g.listLit())
 	g.out = append(g.out, aspgen.Assign(g.fresh("l"), l0))
 	for n := r.Range(1, 3); n > 0; n-- {
 		g.out = append(g.out, g.defFn())
@@ -678,4 +890,111 @@ func RangeLenRegressions() []aspgen.Prog {
 		})
 	}
 	return out
+}
+
+// Pure3Regressions: FIXED programs, one construct of the third deepening after the other and the boundary cases of each. They
+// are P2Must cases: the reference run has to SUCCEED on them (checked inside Coq), so every run exercises every construct under
+// the hypothesis of pure2_run_agrees against the real interpreter and python3, whatever the seed generates.
+func Pure3Regressions() []aspgen.Prog {
+	I, S, id := aspgen.IntE, aspgen.StrE, aspgen.IdE
+	ints := func(xs ...int) *aspgen.Val {
+		es := []*aspgen.Expr{}
+		for _, x := range xs {
+			es = append(es, I(x))
+		}
+		return aspgen.List(es...)
+	}
+	as := aspgen.Assign
+	ev := func(v *aspgen.Val) *aspgen.Expr { return aspgen.E(v) }
+	sl := func(v *aspgen.Val, lo, hi *aspgen.Expr) *aspgen.Expr { return aspgen.E(aspgen.SliceOf(v, lo, hi)) }
+	unpack := func(e *aspgen.Expr, names ...string) *aspgen.Stmt {
+		return &aspgen.Stmt{K: "unpack", Names: names, E: e}
+	}
+	dict := func(kvs ...any) *aspgen.Val {
+		ks, vs := []string{}, []*aspgen.Expr{}
+		for i := 0; i+1 < len(kvs); i += 2 {
+			ks = append(ks, kvs[i].(string))
+			vs = append(vs, I(kvs[i+1].(int)))
+		}
+		return aspgen.Dict(ks, vs)
+	}
+	// 1. the third-deepening part of the non-vacuity example of Props/C16.v
+	example := aspgen.Prog{
+		as("so", ev(call("sorted", pos(ev(ints(3, 1, 2)))))),
+		as("r", ev(call("reversed", pos(id("so"))))),
+		as("d", ev(dict("a", 1, "b", 2))),
+		as("l", ev(ints(2, 4, 6))),
+		as("u", S("2-4-6")),
+		as("sp", ev(aspgen.Method(aspgen.Str("a,b"), "split", S(",")))),
+		as("en", ev(call("enumerate", pos(id("so"))))),
+		as("zp", ev(call("zip", pos(id("so")), pos(id("r"))))),
+		as("it", ev(aspgen.Method(aspgen.Ident("d"), "items"))),
+		as("fm", aspgen.E(aspgen.Str("n=%d%%"), aspgen.Bin("%", aspgen.Int(3)))),
+		as("fs", aspgen.E(aspgen.Str("<%s>"), aspgen.Bin("%", aspgen.Ident("u")))),
+		as("sl", sl(aspgen.Ident("l"), I(1), nil)),
+		as("ss", sl(aspgen.Ident("u"), nil, I(-2))),
+		unpack(id("sp"), "p", "q"),
+		as("du", aspgen.E(aspgen.Ident("d"), aspgen.Bin("|", dict("b", 9, "c", 3)))),
+		as("sr", ev(call("sorted", pos(ev(ints(3, 1, 2))), kw("reverse", ev(aspgen.True()))))),
+		as("t2", I(0)),
+		aspgen.For([]string{"j", "k"}, ev(call("enumerate", pos(id("l")))), aspgen.Aug("t2", aspgen.E(aspgen.Ident("j"), aspgen.Bin("*", aspgen.Ident("k"))))),
+	}
+	// 2. slices at the boundaries: empty windows, open bounds, bounds beyond the end, negative bounds, an empty receiver,
+	//    a slice (spare capacity in asp) as the left operand of +
+	slices := aspgen.Prog{
+		as("l", ev(ints(5, 6, 7))),
+		as("e", ev(ints())),
+		as("a", sl(aspgen.Ident("l"), I(0), I(0))),
+		as("b", sl(aspgen.Ident("l"), I(-1), nil)),
+		as("c", sl(aspgen.Ident("l"), nil, I(10))),
+		as("c2", sl(aspgen.Ident("l"), I(3), nil)),
+		as("c3", sl(aspgen.Ident("l"), I(-3), I(-1))),
+		as("c4", sl(aspgen.Ident("e"), I(1), nil)),
+		as("c5", aspgen.E(aspgen.SliceOf(aspgen.Ident("l"), I(1), I(2)), aspgen.Bin("+", ints(9)))),
+		as("c6", sl(aspgen.Ident("l"), nil, nil)),
+		as("n", ev(call("len", pos(sl(aspgen.Ident("l"), I(1), nil))))),
+		as("s", S("abc")),
+		as("sa", sl(aspgen.Ident("s"), I(1), I(1))),
+		as("sb", sl(aspgen.Ident("s"), I(-2), nil)),
+		as("sc", sl(aspgen.Ident("s"), nil, I(9))),
+		as("sd", sl(aspgen.Str(""), I(0), nil)),
+		as("se", aspgen.E(aspgen.SliceOf(aspgen.Ident("s"), I(1), nil), aspgen.Bin("+", aspgen.SliceOf(aspgen.Ident("s"), nil, I(1))))),
+	}
+	// 3. lists of fresh lists: empty inputs, one argument, nesting, iteration with two names, unpacking an element
+	rows := aspgen.Prog{
+		as("d0", ev(dict())),
+		as("d", ev(dict("a", 1, "k", 2, "z", 3))),
+		as("z0", ev(call("zip", pos(ev(ints())), pos(ev(ints()))))),
+		as("z1", ev(call("zip", pos(ev(ints(1, 2)))))),
+		as("z3", ev(call("zip", pos(ev(ints(1, 2))), pos(ev(ints(3, 4))), pos(ev(ints(5, 6)))))),
+		as("e0", ev(call("enumerate", pos(ev(ints()))))),
+		as("e1", ev(call("enumerate", pos(ev(call("enumerate", pos(ev(ints(7, 8))))))))),
+		as("i0", ev(aspgen.Method(aspgen.Ident("d0"), "items"))),
+		as("i1", ev(aspgen.Method(aspgen.Ident("d"), "items"))),
+		as("acc", S("")),
+		aspgen.For([]string{"k", "v"}, ev(aspgen.Method(aspgen.Ident("d"), "items")), aspgen.Aug("acc", aspgen.E(aspgen.Ident("k"), aspgen.Bin("+", call("str", pos(id("v"))))))),
+		unpack(ev(aspgen.Index(call("zip", pos(ev(ints(1))), pos(ev(ints(2)))), I(0))), "x2", "y2"),
+		unpack(ev(aspgen.List(I(1), ev(ints(2)), S("s"))), "x", "y", "z"),
+		as("m", ev(aspgen.Comp(aspgen.E(aspgen.Ident("p"), aspgen.Bin("*", aspgen.Ident("q"))), []string{"p", "q"}, ev(call("zip", pos(ev(ints(1, 2, 3))), pos(ev(ints(4, 5, 6))))), nil))),
+	}
+	// 4. % formatting, dict |, sorted(reverse=)
+	misc := aspgen.Prog{
+		as("d0", ev(dict())),
+		as("d", ev(dict("a", 1, "b", 2))),
+		as("f0", aspgen.E(aspgen.Str("%s"), aspgen.Bin("%", aspgen.Str("")))),
+		as("f1", aspgen.E(aspgen.Str("%s"), aspgen.Bin("%", aspgen.Int(-5)))),
+		as("f2", aspgen.E(aspgen.Str("%d"), aspgen.Bin("%", aspgen.Int(-5)))),
+		as("f3", aspgen.E(aspgen.Str("100%% of %s."), aspgen.Bin("%", aspgen.Str("a%b")))),
+		as("f4", aspgen.E(aspgen.Str("//%s:%%"), aspgen.Bin("%", aspgen.Ident("f3")))),
+		as("u0", aspgen.E(aspgen.Ident("d0"), aspgen.Bin("|", aspgen.Ident("d0")))),
+		as("u1", aspgen.E(aspgen.Ident("d0"), aspgen.Bin("|", aspgen.Ident("d")))),
+		as("u2", aspgen.E(aspgen.Ident("d"), aspgen.Bin("|", aspgen.Ident("d0")))),
+		as("u3", aspgen.E(aspgen.Ident("d"), aspgen.Bin("|", dict("a", 7)))),
+		as("u4", aspgen.E(aspgen.Ident("d"), aspgen.Bin("|", dict("c", 3)), aspgen.Bin("|", dict("d", 4)))),
+		as("k4", ev(aspgen.Method(aspgen.Ident("u4"), "keys"))),
+		as("s0", ev(call("sorted", pos(ev(ints())), kw("reverse", ev(aspgen.True()))))),
+		as("s1", ev(call("sorted", pos(ev(aspgen.List(S("b"), S("a"), S("c")))), kw("reverse", ev(aspgen.False()))))),
+		as("s2", ev(call("sorted", pos(ev(ints(2, 9, 4))), kw("reverse", aspgen.E(aspgen.Ident("s0"), aspgen.Un("not")))))),
+	}
+	return []aspgen.Prog{example, slices, rows, misc}
 }
